@@ -225,6 +225,7 @@ fn get_ignore_targets<'a>(index: &'a core::Index<'_>, name: &'a str) -> HashSet<
     index
         .ignores
         .common_prefix_search(name)
+        .filter(|m: &String| core::is_path_prefix(m, name))
         .for_each(|m: String| {
             if let Some(v) = index.ignore2targets.get(m.as_str()) {
                 v.iter().for_each(|target| {
@@ -254,6 +255,7 @@ fn analyze_change<'a>(
     index
         .targets_trie
         .common_prefix_search(&change.name)
+        .filter(|target: &String| core::is_path_prefix(target, &change.name))
         .for_each(|target: String| {
             // find the target and its ancestors affected by this change
             if !ignore_targets.contains(target.as_str()) {
@@ -276,6 +278,7 @@ fn analyze_change<'a>(
     index
         .uses
         .common_prefix_search(&change.name)
+        .filter(|m: &String| core::is_path_prefix(m, &change.name))
         .for_each(|m: String| {
             // find any targets mapped to this use
             if !ignore_targets.contains(m.as_str()) {
@@ -283,8 +286,11 @@ fn analyze_change<'a>(
                     use_targets.iter().for_each(|target| {
                         if !ignore_targets.contains(target) {
                             // each mapped target and its ancestors are added
-                            index.targets_trie.common_prefix_search(target).for_each(
-                                |target2: String| {
+                            index
+                                .targets_trie
+                                .common_prefix_search(target)
+                                .filter(|target2: &String| core::is_path_prefix(target2, target))
+                                .for_each(|target2: String| {
                                     if !ignore_targets.contains(target2.as_str()) {
                                         targets.insert(target.to_string());
                                         update_change_targets(
@@ -301,8 +307,7 @@ fn analyze_change<'a>(
                                         );
                                         trace!(target = &target2, "Ignored uses target");
                                     }
-                                },
-                            );
+                                });
                         }
                     });
                 }
